@@ -42,6 +42,10 @@ CHECKS = {
    "exhaustive enumeration of (file, progress, edit) histories executed on the real migrate.Executor, judged by the prefix-equality rule",
    "All files of n<=5 statements x every partial progress k (revision produced by a real failing run) x every single edit (thorough: every pair of edits for n<=4) x 2 directory layouts are re-hashed and re-run on the real Executor: a changed applied prefix must give HistoryChangedError, zero executed statements, untouched history and no panic; a changed tail must resume with exactly the new tail and leave the version done for a following Pending.",
    "Recording driver/store in process; timestamps and operator version excluded from 'untouched'."),
+ "C15": ("exploration",
+   "bounded-exhaustive enumeration over the exported type registries x parameter grid and over the differ universe states, each pushed through MarshalHCL/EvalHCL of the real codecs and compared by differ, formatted types, own structural comparison and byte fixpoint",
+   "For the MySQL, PostgreSQL and SQLite codecs: every registered type spec x parameter grid (size, precision/scale, time precision, unsigned, enum/set values, PostgreSQL arrays) must be a FormatType/ParseType fixpoint and survive MarshalHCL -> EvalHCLBytes as a column type with empty diff both ways and identical bytes on re-marshal; every state of the differ universe (base, +1 edit or equivalence; thorough +2 edits) must round-trip with empty diff both ways, equal element lists / attribute sets / formatted types by our own comparison, and byte-identical re-marshal.",
+   "Types are enumerated through the registry's own spec list; values outside the parameter grid are not claimed."),
  "C17": ("exploration",
    "bounded-exhaustive enumeration of plans; reversible ones are executed up and down on a real SQLite engine and the catalogue compared; down files of all formatters compared with the reverse statements",
    "The C01 pair space x 2 indent settings: Reversible must hold exactly when every schema-changing statement has a reverse, a table rebuild is never reversible, the down part written by each of the 5 third-party formatters equals the reverse statements in reverse change order (per changeset for Liquibase), and for every reversible plan up followed by down on the real engine restores the catalogue and leaves no atlas diff in either direction.",
